@@ -182,3 +182,6 @@ Definition compose_h (fuel : nat) (fs : fields) (h : heap) (n : addr) (d : addr)
       Done (q, d')
   | _ => IllFormed
   end.
+
+(* decidable guard of the C02 theorems: the layers live in the heap below n0 *)
+Definition layers_below (n0 : N) (layers : list addr) : bool := forallb (fun l => l <? n0) layers.
